@@ -118,7 +118,7 @@ PROPS = {
     ),
     "C03": dict(
         modules=["JPV.Props.C03", "JPV.Props.C09", "JPV.Props.C13", "JPV.Props.C12"],
-        theorems=["JPV.Props.C03_kwfree", "JPV.Props.C03_builtin", "JPV.Props.C03_structural", "JPV.Props.C12_filter_partial", "JPV.Props.C09", "JPV.Props.C13_lex", "JPV.Props.C13_token_shapes"],
+        theorems=["JPV.Props.C03", "JPV.Props.C03_kwfree", "JPV.Props.C03_builtin", "JPV.Props.C03_structural", "JPV.Props.C12_filter_partial", "JPV.Props.C09", "JPV.Props.C13_lex", "JPV.Props.C13_token_shapes"],
         tables=[T + "regexes_model", T + "escapes_model", T + "token_map_model", T + "function_argument_map_model",
                 T + "precedences_model", T + "binary_operators_model", T + "builtin_sigs_model", T + "env_defaults_model"],
         explore=ct.explore_c03,
